@@ -70,9 +70,9 @@ func (g *Gen) ruleLemmas(id string) {
 			g.Obls = append(g.Obls, o)
 			g.fusionLemma(r, b)
 		}
-		if id == "C20" {
-			g.posLemma(r, b)
-		}
+		// C02 also promises that a failure is reported on the same source line with the optimizer on
+		// or off: the position lemma belongs to both properties
+		g.posLemma(r, b)
 	}
 	if !seenDefault {
 		g.errorf("rules: doOptimize switch has no default (copy) case")
@@ -137,7 +137,7 @@ func (g *Gen) posLemma(r *Rule, b *Block) {
 	if !ok {
 		goal = "false"
 	}
-	o := &Obligation{Name: name, Props: []string{"C20"}, Goal: goal, Unit: r.Name(),
+	o := &Obligation{Name: name, Props: []string{"C20", "C02"}, Goal: goal, Unit: r.Name(),
 		Text: fmt.Sprintf("Pos(fused) = Pos(in[n+%d]); faultable components %v; %s", posIdx, faults, strings.Join(why, "; "))}
 	g.Obls = append(g.Obls, o)
 }
